@@ -113,7 +113,7 @@ impl ZR {
     }
     pub fn normalised(mut self) -> ZR {
         match &mut self {
-            ZR::Referral(v) | ZR::Answer(v) => v.sort_by(|a, b| format!("{a:?}").cmp(&format!("{b:?}"))),
+            ZR::Referral(v) | ZR::Answer(v) => v.sort(),
             _ => {}
         }
         self
